@@ -249,6 +249,18 @@ func collectionCentroidArea(c orb.Collection) (orb.Point, float64) {
 	area := 0.0
 
 	max := maxDim(c)
+	if max < 2 {
+		// no areas to weigh by: points count equally, lines by their length.
+		var mp orb.MultiPoint
+		var mls orb.MultiLineString
+		flattenLowDim(c, max, &mp, &mls)
+
+		if max == 0 {
+			return multiPointCentroid(mp), 0
+		}
+		return multiLineStringCentroid(mls), 0
+	}
+
 	for _, g := range c {
 		if g.Dimensions() != max {
 			continue
@@ -270,6 +282,29 @@ func collectionCentroidArea(c orb.Collection) (orb.Point, float64) {
 	point[1] /= area
 
 	return point, area
+}
+
+// flattenLowDim gathers the points (dim 0) or the line strings (dim 1)
+// of the members of that dimension, nested collections included.
+func flattenLowDim(c orb.Collection, dim int, mp *orb.MultiPoint, mls *orb.MultiLineString) {
+	for _, g := range c {
+		if g.Dimensions() != dim {
+			continue
+		}
+
+		switch g := g.(type) {
+		case orb.Point:
+			*mp = append(*mp, g)
+		case orb.MultiPoint:
+			*mp = append(*mp, g...)
+		case orb.LineString:
+			*mls = append(*mls, g)
+		case orb.MultiLineString:
+			*mls = append(*mls, g...)
+		case orb.Collection:
+			flattenLowDim(g, dim, mp, mls)
+		}
+	}
 }
 
 func maxDim(c orb.Collection) int {
